@@ -60,7 +60,7 @@ type Gen struct {
 	NoZPop              bool // sorted sets: ZAdd / ZRem only (no positional removals)
 }
 
-var bucketPool = []string{"b1", "b2", "bk", "b", "x"}
+var bucketPool = []string{"b1", "b2", "bk", "b", "x", "b.k"} // ("b.k": sparse mode derives file names from bucket names)
 
 var adversarialBuckets = []string{"a", "ab", "abc", "b", "a|", "k", "ka"}
 
